@@ -668,6 +668,8 @@ type c18Job struct {
 	prev  []byte
 	sats  uint64
 	flags scriptflag.Flag
+	// flagOpts is built once, when the jobs are made (one goroutine), from the process-wide option values
+	flagOpts []interpreter.ExecutionOptionFunc
 }
 
 func (j *c18Job) run(e interpreter.Engine) string {
@@ -675,7 +677,10 @@ func (j *c18Job) run(e interpreter.Engine) string {
 	if err != nil {
 		return "decode: " + err.Error()
 	}
-	err = e.Execute(interpreter.WithTx(tx, j.idx, &bt.Output{Satoshis: j.sats, LockingScript: bscript.NewFromBytes(append([]byte{}, j.prev...))}), interpreter.WithFlags(j.flags))
+	// the flag options are VALUES shared by every execution of every goroutine (one WithFlags value
+	// per flag set, one of each convenience option, the convenience options in front)
+	opts := append([]interpreter.ExecutionOptionFunc{interpreter.WithTx(tx, j.idx, &bt.Output{Satoshis: j.sats, LockingScript: bscript.NewFromBytes(append([]byte{}, j.prev...))})}, j.flagOpts...)
+	err = e.Execute(opts...)
 	if err == nil {
 		return "ok"
 	}
@@ -760,6 +765,9 @@ func c18Jobs(seed uint64) []c18Job {
 		{"2", "0x01 0x02 EQUAL"}, {"3", "0x01 0x03 EQUAL"}, {"15 3", "NUM2BIN 0x03 0x0f0000 EQUAL"}, {"16", "0x01 0x10 EQUAL"}, {"1NEGATE 2", "NUM2BIN 0x02 0x0180 EQUAL"}, {"0", "NOT"}, {"5", "SIZE 1 EQUALVERIFY 5 EQUAL"}, {"0x02 0x8000", "BIN2NUM 0 EQUAL"},
 	} {
 		pure(sh(prog[0]), sh(prog[1]))
+	}
+	for k := range jobs {
+		jobs[k].flagOpts = flagOptions(uint32(jobs[k].flags), 1+4*k) // style 1: convenience options, then WithFlags(rest)
 	}
 	return jobs
 }
